@@ -156,6 +156,73 @@ pub fn eval(sc: &Scenario) -> CaseResult {
     r
 }
 
+/// three peers: A and B run level, C lags k frames behind and then dies; afterwards A and B still run
+/// level with every remaining peer, so their frames_ahead() must be about zero again
+pub fn after_drop_case(i: u64, seed: u64) -> Scenario {
+    let mut k = i;
+    let lag = 3 + (k % 5) as u32;
+    k /= 5;
+    let fps = [60u16, 30, 120][(k % 3) as usize];
+    k /= 3;
+    let lat = [0u16, 10, 30][(k % 3) as usize];
+    let mut sc = Scenario::basic(mix(seed ^ 0x15d, i), 3);
+    sc.fps = fps;
+    sc.max_pred = 40;
+    sc.sched = 0;
+    sc.fine_poll = true;
+    sc.link = LinkProfile { loss: 0, dup: 0, lat_min: lat, lat_max: lat };
+    let fm = (1000 / fps as u32).max(1);
+    let pause_tick = (10 * lat as u32 + 250) / fm + 20;
+    sc.ops.push(Op::Pause { tick: pause_tick, node: 2, ticks: lag });
+    let kill = pause_tick + 60 + 150;
+    sc.ops.push(Op::Kill { tick: kill, peer: 2 });
+    sc.notify_ms = 300;
+    sc.timeout_ms = 1000;
+    // observation window: after the timeout plus the 30-frame averaging window plus report lag
+    sc.ticks = kill + 1000 / fm + 60 + 200 + 1200 / fm;
+    sc.settle = 0;
+    sc
+}
+
+pub fn eval_after_drop(sc: &Scenario) -> CaseResult {
+    let mut opts = RunOpts::default();
+    opts.sample_stats = true;
+    let out = run(sc, &opts);
+    let mut r = CaseResult::default();
+    r.classes = base_classes(sc, &out);
+    r.counters = base_counters(&out);
+    r.violation = first_violation(&out, &["C15"]);
+    let fm = (1000 / sc.fps as i64).max(1);
+    let kill = sc.ops.iter().find_map(|o| if let Op::Kill { tick, .. } = o { Some(*tick as i64) } else { None }).unwrap_or(0);
+    let from = kill + 1000 / fm + 60 + 1200 / fm; // disconnect + averaging window + report lag
+    let disc_ms = out.peers[0].events.iter().find_map(|e| if matches!(e.1, Ev::Disconnected { .. }) { Some(e.0) } else { None });
+    r.summary = format!("lag={:?} fps={} | A {:?} B {:?} disconnected_at={:?}", sc.ops.first(), sc.fps, out.peers[0].fa_samples.last(), out.peers[1].fa_samples.last(), disc_ms);
+    let mut compared = 0;
+    if r.violation.is_none() {
+        for p in 0..2 {
+            if !out.peers[p].cs.iter().any(|c| c.0) {
+                r.violation = Some(("C15.setup_no_drop".into(), format!("peer{p} never dropped the dead peer (harness scenario broken)")));
+            }
+            for (t, fa) in out.peers[p].fa_samples.iter().filter(|s| s.0 as i64 >= from) {
+                compared += 1;
+                if fa.abs() > 1 {
+                    r.violation = Some(("C15.stale_after_drop".into(), format!("tick {t}: peer{p} runs level with its only remaining peer (the lagging third peer was dropped at {:?} ms) but frames_ahead() is {fa}", disc_ms)));
+                    break;
+                }
+            }
+            if let Some(w) = out.peers[p].wait_recs.iter().find(|w| disc_ms.map(|d| w.0 > d + 2000).unwrap_or(false)) {
+                if r.violation.is_none() {
+                    r.violation = Some(("C15.wait_after_drop".into(), format!("peer{p} got WaitRecommendation(skip {}) at {} ms although it runs level with its only remaining peer", w.1, w.0)));
+                }
+            }
+        }
+    }
+    r.nontrivial = compared >= 10;
+    r.classes.push("lagging_peer_dropped");
+    r.counters.push(("frames_ahead_samples_compared", compared));
+    r
+}
+
 pub fn run_prop(ctx: &Ctx) -> PropReport {
     let mut rep = PropReport::new("C15", "exploration");
     let seed = ctx.seed;
@@ -163,6 +230,9 @@ pub fn run_prop(ctx: &Ctx) -> PropReport {
     rep.part(|| run_enum(ctx, "steady_lead",
         "bounded enumeration: lead k in -7..=7 x symmetric latency {0,5,10,20,35,50,75,100 ms} x fps {60,30,120} x input delay {0,2}; two peers, window 40, lock-stepped ticks after a warm-up, polls every millisecond between ticks (as the documented loop polls every iteration); oracle, sampled every 10 ticks after the warm-up: |frames_ahead_A - k| <= 1, |frames_ahead_B + k| <= 1, |sum| <= 1; every WaitRecommendation raised only with frames_ahead() >= 3 as read right after that call, skip_frames == frames_ahead(), >= 60 frames apart, and given at all when |k| >= 4; 2L <= ping <= 2L + one tick; one side's local_frames_behind == the other's remote_frames_behind (+-1); NotEnoughData before 1 s, numbers afterwards; non-trivial = >= 10 post-warm-up samples and stats available",
         NCASES * reps, move |i| case(i % NCASES, mix(seed, i / NCASES)), eval, true));
+    rep.part(|| run_enum(ctx, "level_after_drop",
+        "enumeration: lag 3..=7 x fps {60,30,120} x latency {0,10,30 ms}: three peers, two run level, the third runs lag frames behind for 150 frames and then dies; once it is timed out and the averaging window has passed, frames_ahead() of the two survivors must be within one frame of zero and no WaitRecommendation may be raised any more",
+        45 * reps, move |i| after_drop_case(i % 45, mix(seed, i / 45)), eval_after_drop, true));
     rep.assumptions = vec!["the lead is produced by pausing one peer for |k| ticks after the handshake and is measured from the sessions' current_frame() difference at the end (constant once both tick every round)".into()];
     rep
 }
